@@ -86,7 +86,7 @@ class address_offsets:
                   " and start >= phdr(self, j).p_vaddr and start + size <= phdr(self, j).p_vaddr + phdr(self, j).p_filesz,"
                   " 0, max(0, nseg(self)))"]
     # the enumeration is consumed to its end: the function does not return from inside the loop
-    ensures = ["$k0 == gen_len($seq0)"]
+    ensures = ["@check $k0 == gen_len($seq0)"]
     may_raise = ["ELFError", "OverflowError"]
 from specs.contents import inflated, inflatable, zeros
 
